@@ -153,4 +153,69 @@ func init() {
 			return js
 		},
 	})
+	reg(&PropSpec{
+		ID: "C03", Level: "other",
+		Explanation: seqLevelText + ". C03: hseq.New/unfold/ForType/ForName/ForNameMaybe/New1..9/FMap/FMap1..9 executed (real code, go/ssa) on a corpus of 7 struct shapes (padding holes, strings/slices/pointers/interfaces/arrays/zero-size and trailing zero-size fields, value embedding to depth 3 at non-zero offsets, pointer embedding, duplicate names and types across depths, hseq tags incl. `,opt` and foreign tags, unexported names, nine distinct field types) and compared entry by entry with hand-written listings whose offsets are unsafe.Offsetof sums through ordinary selectors; FMapN pairing is checked with uninterpreted functions of (position, entry ID). Shapes are a fixed corpus (structure is concrete); reflect is a model backed by go/types + gc/amd64 sizes.",
+		Assumptions: append([]string{"reflect reports the compiler's layout and type identity (model: go/types + types.SizesFor(gc, amd64)); replays run against the real reflect", "struct shapes outside the corpus are outside the claim; self-referential pointer embedding makes unfold diverge and is excluded"}, commonAssumptions...),
+		Jobs: func(tier string) []JobSpec {
+			var js []JobSpec
+			for _, h := range []string{"VListFlat", "VListDeep", "VListTag", "VListPtr", "VListDup", "VListZero", "VListNine", "VListShadow"} {
+				js = append(js, JobSpec{Group: "hseq", Harness: h, Mode: "seq"})
+			}
+			return js
+		},
+	})
+	reg(&PropSpec{
+		ID: "C01", Level: "other",
+		Explanation: seqLevelText + ". C01: for 5 corpus shapes (padding holes, mixed alignment, strings/slices/pointers/interfaces/arrays/zero-size fields, value embedding to depth 3 at non-zero offsets, tags, unexported names, duplicate names/types across depths) every focusable field gets a Lens and a Reflector derived by name and (where unique) by type, plus ForProduct2..9/ForSpectrum2..9 by type and by name on a nine-type struct; the struct content (between guard words) and the put values are fully symbolic; Get/Put/Gett/Putt are compared leaf by leaf (guards included) with ordinary Go selectors: GetPut, PutGet, PutPut, returned pointer identity. The unsafe pointer arithmetic is interpreted by a byte-offset memory model that flags any access not exactly on one field of the focus type.",
+		Assumptions: append([]string{"reflect reports the compiler's layout and type identity (model: go/types + types.SizesFor(gc, amd64)); replays run against the real reflect and the real unsafe arithmetic", "struct shapes outside the corpus and other GOARCH layouts are outside the claim (a layout-symbolic mode is described in DESIGN.md as thorough-tier work)"}, commonAssumptions...),
+		Jobs: func(tier string) []JobSpec {
+			var js []JobSpec
+			for _, t := range []string{"VFlat", "VDeep", "VTag", "VDup", "VZero"} {
+				js = append(js, JobSpec{Group: "optics", Harness: "VLens" + t, Mode: "seq"})
+			}
+			for n := 2; n <= 9; n++ {
+				for _, k := range []string{"Product", "Spectrum"} {
+					for _, m := range []string{"Type", "Name"} {
+						js = append(js, JobSpec{Group: "optics", Harness: fmt.Sprintf("VArity%s%d%s", k, n, m), Mode: "seq"})
+					}
+				}
+			}
+			return js
+		},
+	})
+	reg(&PropSpec{
+		ID: "C02", Level: "other",
+		Explanation: seqLevelText + ". C02: ~60 mismatching derivation requests over the corpus shapes (unknown name, absent type, wrong type by name incl. named-vs-underlying, width, pointer-vs-value, interface, slice/array element, second of N, through ForProduct/ForSpectrum/ForShape/BiMapX/NewLens/NewReflector, too few names with and without spare slice capacity, pointer container type parameter, fields behind pointer-embedded structs) must panic at derivation; Reflector Gett/Putt with value, nil, **T, other struct, same-layout twin type, *int arguments must panic and leave the argument (symbolic content) unchanged. Accepted optics are checked by the C01 exact-field oracle. Requests are a fixed list; contents are symbolic.",
+		Assumptions: append([]string{"reflect reports the compiler's layout and type identity (model: go/types + types.SizesFor(gc, amd64))", "request shapes outside the listed universe are outside the claim"}, commonAssumptions...),
+		Jobs: func(tier string) []JobSpec {
+			var js []JobSpec
+			for _, h := range []string{"VReject", "VRejectContainer", "VRejectPtrEmbedded", "VPtrEmbeddedNeighbours", "VReflectorArgs"} {
+				js = append(js, JobSpec{Group: "optics", Harness: h, Mode: "seq"})
+			}
+			return js
+		},
+	})
+	reg(&PropSpec{
+		ID: "C04", Level: "other",
+		Explanation: seqLevelText + ". C04: Join at nesting depth 1..3 (both associations) over nested structs with the lens laws and the leaf-by-leaf 'nothing else changes' oracle of C01; Getter/Setter/BiMap with uninterpreted conversions (mutual inverseness assumed on the occurring values); BiMapS/B/I/F on named types; ForShape2..9 by type and by name (positional Get/Put against component assignments); map lens over three present keys and one absent key; Iso/Morphism over every list of length <= 3 (4 thorough) drawn from {nil, isoA, isoB, isoC} with repeats: Forward, Inverse into a fresh source, Forward;Inverse identity, both structures compared leaf by leaf between guard words. Contents and values are symbolic.",
+		Assumptions: append([]string{"maps with symbolic keys and float NaN payload semantics are outside the claim (floats are compared bit-wise)", "reflect model as in C01"}, commonAssumptions...),
+		Jobs: func(tier string) []JobSpec {
+			maxlen := 3
+			if tier == "thorough" {
+				maxlen = 4
+			}
+			var js []JobSpec
+			for _, h := range []string{"VJoin", "VGetterSetterBiMap", "VBiMapX", "VLensM"} {
+				js = append(js, JobSpec{Group: "optics", Harness: h, Mode: "seq"})
+			}
+			js = append(js, JobSpec{Group: "optics", Harness: "VIso", Mode: "seq", Params: map[string]int{"maxlen": maxlen}})
+			for n := 2; n <= 9; n++ {
+				for _, m := range []string{"Type", "Name"} {
+					js = append(js, JobSpec{Group: "optics", Harness: fmt.Sprintf("VShape%d%s", n, m), Mode: "seq"})
+				}
+			}
+			return js
+		},
+	})
 }
